@@ -32,7 +32,7 @@ Pts(k) == IF k = 0 THEN {<<>>} ELSE {<<c>> \o p : c \in Cs, p \in Pts(k - 1)}
 Acts(t) ==
   LET lp == LeafPaths(t, DEPTH)
       fp == FiberPaths(t, DEPTH)
-  IN  (IF "ref" \in OPS THEN {[op |-> "ref", pt |-> p] : p \in UNION {Pts(k) : k \in 1..DEPTH}} ELSE {})
+  IN  (IF "ref" \in OPS THEN {[op |-> "ref", pt |-> p, sp |-> sp] : p \in UNION {Pts(k) : k \in 1..DEPTH}, sp \in -1..(NC - 1)} ELSE {})
  \cup (IF "write" \in OPS THEN {[op |-> "write", pt |-> p, kind |-> k, v |-> v] : p \in Pts(DEPTH), k \in {"assign", "add", "mul"}, v \in Vs} ELSE {})
  \cup (IF "append" \in OPS THEN {[op |-> "append", path |-> q, c |-> c, v |-> v] : q \in lp, c \in 0..(NC + 1), v \in {0, 1}} ELSE {})
  \cup (IF "extend" \in OPS THEN {[op |-> "extend", path |-> q, other |-> o] : q \in lp, o \in Others} ELSE {})
